@@ -82,7 +82,8 @@ def scenario_factory(nops, modes, separate_reader=False, planted=None, ops=None,
         def note_removed():
             for op in fs.oplog:
                 if op[0] == 'unlink':
-                    recs = _collect(op[2], sizes + [1] * 8, 0 if mode == 'bin' else 1)
+                    content = op[2].replace(b'"', b'') if mode == 'json' else op[2]      # json mode stores "A" with quotes
+                    recs = _collect(content, sizes + [1] * 8, 0 if mode == 'bin' else 1)
                     if recs: removed.update(recs)
         def deliver(res, block):
             if res is None: return
@@ -224,20 +225,24 @@ def harnesses(tier):
     assume = ['timestamps are exact multiples of 1 microsecond (float rounding of ts*1_000_000 is outside the claim)', 'clock value is later than every given timestamp',
               'records are 1-2 bytes (distinct letters), at most 6 writes']
     hs = [
-        Harness('c13.same_object', scenario_factory(4 if q else 5, ['bin', 'txt'] if q else ['bin', 'binl', 'txt', 'json']),
+        Harness('c13.same_object', scenario_factory(4, ['bin', 'txt'] if q else ['bin', 'binl', 'txt', 'json']),
                 twin=scenario_factory(2, ['bin'], planted='oracle'),
-                bounds={'operations': 4 if q else 5, 'op kinds': 'write(ts) write(clock) read read_block read-all external-delete close+reopen(seek tell)', 'modes': 'bin,txt' if q else 'all four',
+                bounds={'operations': 4, 'op kinds': 'write(ts) write(clock) read read_block read-all external-delete close+reopen(seek tell)', 'modes': 'bin,txt' if q else 'all four',
                         'file_size': 'unbounded Int >= 1', 'total_size': 'unbounded Int >= 1', 'timestamps': 'unbounded Int microseconds, equal and decreasing allowed'},
                 functions=fn, stubs=stubs, assumptions=assume, real_replay=real_replay, budget_s=400 if q else 2400),
-        Harness('c13.separate_reader', scenario_factory(3 if q else 4, ['txt'] if q else ['bin', 'txt'], separate_reader=True, prewrites=(0,) if q else (0, 2, 3),
+        Harness('c13.separate_reader', scenario_factory(3 if q else 4, ['txt'], separate_reader=True, prewrites=(0,) if q else (0, 2),
                                                         ops=['write_ts', 'read', 'read_all', 'read_block', 'extdel', 'reopen', 'refresh']),
-                bounds={'initial writes': 0 if q else '0, 2 or 3', 'operations after them': 3 if q else 4, 'reader': 'separate read-only RollLog with autorefresh', 'modes': 'txt' if q else 'bin,txt'},
+                bounds={'initial writes': 0 if q else '0 or 2', 'operations after them': 3 if q else 4, 'reader': 'separate read-only RollLog with autorefresh', 'modes': 'txt'},
                 functions=fn, stubs=stubs, assumptions=assume, real_replay=real_replay, budget_s=400 if q else 2400),
     ]
-    hs.append(Harness('c13.catch_up', scenario_factory(3 if q else 4, ['txt'] if q else ['txt', 'bin'], prewrites=(3,) if q else (3, 4), pre_increasing=True,
-                                                     ops=['write_ts', 'read', 'read_all', 'reopen'] if q else ['write_ts', 'write_clock', 'read', 'read_all', 'read_block', 'reopen', 'extdel']),
-                      bounds={'initial writes': '3 (increasing symbolic timestamps, 2-byte records)' if q else '3-4', 'operations after them': 3 if q else 4, 'op kinds': 'write(ts) read read-all reopen' if q else 'all',
+    hs.append(Harness('c13.catch_up', scenario_factory(3 if q else 4, ['txt'], prewrites=(3,), pre_increasing=True,
+                                                     ops=['write_ts', 'read', 'read_all', 'reopen'] if q else ['write_ts', 'read', 'read_all', 'reopen', 'extdel']),
+                      bounds={'initial writes': '3 (increasing symbolic timestamps, 2-byte records)', 'operations after them': 3 if q else 4, 'op kinds': 'write(ts) read read-all reopen' if q else 'write(ts) read read-all reopen external-delete',
                               'file_size, total_size': 'unbounded Int >= 1'}, functions=fn, stubs=stubs, assumptions=assume, real_replay=real_replay, budget_s=400 if q else 2400))
+    if not q:
+        hs.append(Harness('c13.same_object.5', scenario_factory(5, ['txt'], ops=['write_ts', 'read', 'read_all', 'extdel', 'reopen']),
+                          bounds={'operations': 5, 'op kinds': 'write(ts) read read-all external-delete reopen', 'mode': 'txt', 'file_size, total_size, timestamps': 'unbounded Int'},
+                          functions=fn, stubs=stubs, assumptions=assume, real_replay=real_replay, budget_s=2400))
     return hs
 
 
